@@ -2206,6 +2206,45 @@ fn main() {
             }
         }
     }
+    // (1i) TWO concurrently running pipeline members that both mutate their own state (`A:` = the first member of the
+    // innermost pipeline, `C:` = its last member), under 5 executor schedules each (`yield` = `( : )` at the start /
+    // end of either member's mutators, or none): the starter's state afterwards is its state before, whatever the
+    // members did and in whatever order
+    {
+        let pairs: [(&str, &str); 8] = [
+            ("A:umask 027; A:cd /d1", "C:umask 077; C:cd /d2"),
+            ("A:set va 1; A:export vb two", "C:set va x3; C:readonly vb w4"),
+            ("A:fdw 3 f1; A:fdw 4 f2", "C:fdw 3 f2; C:fdc 4"),
+            ("A:trap USR1 i; A:trap INT c6", "C:trap USR1 c4; C:trap INT i"),
+            ("A:alias A1 1; A:fn F1 b1", "C:alias A1 two; C:fn F1 b2; C:unalias A1"),
+            ("A:cd /d1/s; A:fdw 5 f1; A:set vc 1", "C:cd /d1; C:umask 022; C:nofile 16"),
+            ("A:umask 022; A:trap TERM i", "C:opt+ allexport; C:set va 1; C:args 1 two; C:shift"),
+            ("A:export va 1; A:cd /d2", "C:unset va; C:args 1 two"),
+        ];
+        let mut nests: Vec<Vec<&str>> = vec![vec!["pipeL"]];
+        for k in KINDS.iter() {
+            nests.push(vec![k, "pipeL"]);
+        }
+        for (n, kinds) in nests.iter().enumerate() {
+            for (pi, (a, c)) in pairs.iter().enumerate() {
+                if !o.thorough() && (n + pi) % 2 == 1 {
+                    continue;
+                }
+                let ks: Vec<String> = kinds.iter().map(|k| format!("K:{k}")).collect();
+                let pro = ["P:umask 022", "P:set va two", "P:fdw 3 f2", "P:trap USR1 c1", "P:alias A1 w4", "P:cd /d2", "P:trap TERM c2", "P:args x3"][pi];
+                for sched in 0..5 {
+                    let (a2, c2) = match sched {
+                        0 => (a.to_string(), c.to_string()),
+                        1 => (format!("A:yield; {a}"), c.to_string()),
+                        2 => (format!("{a}; A:yield"), c.to_string()),
+                        3 => (a.to_string(), format!("C:yield; {c}")),
+                        _ => (format!("A:yield; {a}; A:yield"), format!("C:yield; {c}; C:yield")),
+                    };
+                    cases.push(format!("{pro}; {}; {a2}; {c2}", ks.join("; ")));
+                }
+            }
+        }
+    }
     // (1g) EMFILE through the shell: the innermost child lowers its own soft RLIMIT_NOFILE to 4; with descriptors 0-3
     // in use `open` itself fails (`has_unused_fd`), with the target open the saving `dup(target, 10, ..)` fails, a
     // target at or above 4 fails in `dup2`; closing, and re-opening the lowest free descriptor, still work.  Whatever
